@@ -4,7 +4,8 @@ stdin : one JSON document {"histories": [tree, ...], "init": [reg, ...]}
 stdout: one JSON document per history: {"ops": [...], "obs": [...], "prop": [...]}
 
 A history is a tree of nodes executed with real `with` statements / decorator calls:
-  ["create", fz, daz, rn]            fz,daz in {null,true,false}; rn in {null,"nearest",...}
+  ["create", fz, daz, rn, shared?]   fz,daz in {null,true,false}; rn in {null,"nearest",...}; shared: built from the harness's own
+                                     MXCSRRegister instance instead of fpu.context (a fresh instance)
   ["with", i, form, [children]]      form in {"with","decorator"}; uses context object number i
   ["body", flags]                    sets sticky exception flags (bits 0-5) as arithmetic would
   ["arith"]                          real arithmetic observation (subnormal product, 1/3)
@@ -94,10 +95,11 @@ def run_history(tree, init):
         kind = node[0]
         sync()
         if kind == "create":
-            _, fz, daz, rn = node
+            _, fz, daz, rn = node[:4]
+            shared = len(node) > 4 and bool(node[4])
             cur = reg()
             try:
-                c = fpu.context(FZ=fz, DAZ=daz, RN=rn)
+                c = R(FZ=fz, DAZ=daz, RN=rn) if shared else fpu.context(FZ=fz, DAZ=daz, RN=rn)
             except BaseException as e:  # noqa: BLE001 - every documented mode must be accepted: the exception kind is the observation
                 # (an AssertionError here used to unwind to the nearest `try` like the documented re-entry assertion and silently
                 # truncated the history: a first-order mutant that made RN="towardszero" unreachable survived)
